@@ -104,15 +104,15 @@ Section P.
   Theorem restructure_preserves g new d :
     db_ok d -> g < length (frags d) -> (0 <= c_off new)%Z ->
     let d' := fst (restructure h ns fail g new d) in
-    db_ok d' /\
+    db_ok d' /\ length (frags d') = length (frags d) /\
     forall i f, find_field d i = Some f ->
-      exists f', find_field d' i = Some f' /\ fty f' = fty f /\ fspf f' = fspf f /\
+      exists f', find_field d' i = Some f' /\ fty f' = fty f /\ fspf f' = fspf f /\ ffrag f' = ffrag f /\
         forall k, (ffrag f = g -> (c_off new * Z.of_nat (fspf f) <= k)%Z) -> view d' f' k = view d f k.
   Proof.
     intros (ND & WF & OFF) Hg Hnew. unfold restructure.
     destruct (make_temps h ns fail g (frag_cfg d g) new (fields d)) as [ts e] eqn:M.
     destruct e; cbn [fst].
-    - split; [repeat split; auto|]. intros i f Hf. exists f. repeat split; auto.
+    - split; [repeat split; auto|]. split; [reflexivity|]. intros i f Hf. exists f. repeat split; auto.
     - set (F := fun f => match lookup (fid f) ts with
                          | Some v => mkField (fid f) (ffrag f) (fty f) (fspf f) v | None => f end).
       assert (HF : forall f, fid (F f) = fid f) by (intros f; unfold F; destruct (lookup (fid f) ts); reflexivity).
@@ -127,7 +127,8 @@ Section P.
           split; auto. rewrite mogrify_field_eq by auto. now apply shift_file_wf.
         * clear - OFF Hnew. revert g. induction (frags d) as [|c r IH]; intros [|g]; cbn; auto;
             inversion OFF; subst; constructor; auto.
-      + intros i f Hf. unfold find_field in *. cbn [fields]. unfold commit. fold F.
+      + split; [cbn [frags]; apply set_nth_length|].
+        intros i f Hf. unfold find_field in *. cbn [fields]. unfold commit. fold F.
         rewrite find_map_fid by exact HF. rewrite Hf. cbn [option_map].
         exists (F f). destruct (find_some_in _ _ _ Hf) as [Hin Hid].
         rewrite Forall_forall in WF. destruct (WF f Hin) as [W1 W2].
@@ -139,6 +140,49 @@ Section P.
           unfold frag_cfg. rewrite Forall_forall in OFF. apply OFF. apply nth_In. auto.
         * repeat split; auto. intros k _. unfold view, frag_cfg. cbn [frags].
           rewrite nth_set_nth_neq by auto. reflexivity.
+  Qed.
+
+  (* ---- GD_ALL_FRAGMENTS with an encoding or byte-order change (frame offsets untouched):
+     whatever fails wherever, every field of every fragment reads as before, at every sample ---- *)
+  Theorem restructure_all_preserves upd gs : (forall c, c_off (upd c) = c_off c) ->
+    forall d, db_ok d -> Forall (fun g => g < length (frags d)) gs ->
+    let d' := fst (restructure_all h ns fail upd gs d) in
+    db_ok d' /\ length (frags d') = length (frags d) /\
+    forall i f, find_field d i = Some f ->
+      exists f', find_field d' i = Some f' /\ fty f' = fty f /\ fspf f' = fspf f /\ ffrag f' = ffrag f /\
+        forall k, view d' f' k = view d f k.
+  Proof.
+    intros Hupd. induction gs as [|g r IH]; intros d OK Hg.
+    - cbn. split; auto. split; auto. intros i f Hf. exists f. repeat split; auto.
+    - inversion Hg as [|? ? Hg1 Hg2]; subst. cbn [restructure_all].
+      assert (Hoff : (0 <= c_off (upd (frag_cfg d g)))%Z).
+      { rewrite Hupd. destruct OK as (_ & _ & OFF). rewrite Forall_forall in OFF. apply OFF. unfold frag_cfg. now apply nth_In. }
+      pose proof (restructure_preserves g (upd (frag_cfg d g)) d OK Hg1 Hoff) as (OK1 & L1 & P1).
+      pose proof (restructure_all_or_nothing g (upd (frag_cfg d g)) d) as AN.
+      destruct (restructure h ns fail g (upd (frag_cfg d g)) d) as [d1 e] eqn:R. cbn [fst snd] in *.
+      assert (V1 : forall i f, find_field d i = Some f ->
+                exists f', find_field d1 i = Some f' /\ fty f' = fty f /\ fspf f' = fspf f /\ ffrag f' = ffrag f /\
+                  forall k, view d1 f' k = view d f k).
+      { intros i f Hf. destruct (P1 i f Hf) as (f' & A & B & C & D & E). exists f'. repeat split; auto.
+        intros k. destruct e.
+        - (* error: nothing changed *) rewrite (AN eq_refl) in A. rewrite Hf in A. inversion A; subst f'. now rewrite (AN eq_refl).
+        - destruct (Nat.eq_dec (ffrag f) g) as [Q|Q]; [|apply E; intros; contradiction].
+          destruct (Z_le_gt_dec (c_off (upd (frag_cfg d g)) * Z.of_nat (fspf f)) k) as [Hk|Hk]; [apply E; auto|].
+          (* below the (unchanged) frame offset both read as zero *)
+          unfold view, abs_sample. rewrite B, C, D.
+          assert (O1 : c_off (frag_cfg d1 (ffrag f)) = c_off (frag_cfg d g)).
+          { unfold restructure in R. destruct (make_temps h ns fail g (frag_cfg d g) (upd (frag_cfg d g)) (fields d)) as [ts e0].
+            destruct e0; [discriminate R|]. assert (Hd := f_equal fst R). cbn [fst] in Hd. rewrite <- Hd. unfold frag_cfg at 1. cbn [frags]. rewrite Q, nth_set_nth_eq by auto. apply Hupd. }
+          rewrite O1, Q. rewrite Hupd in Hk.
+          replace (k <? c_off (frag_cfg d g) * Z.of_nat (fspf f))%Z with true by (symmetry; apply Z.ltb_lt; lia). reflexivity. }
+      destruct e; cbn [fst].
+      + split; auto.
+      + assert (Hg2' : Forall (fun g0 => g0 < length (frags d1)) r) by (rewrite L1; exact Hg2).
+        destruct (IH d1 OK1 Hg2') as (OK2 & L2 & P2).
+        split; auto. split; [congruence|].
+        intros i f Hf. destruct (V1 i f Hf) as (f1 & A1 & B1 & C1 & D1 & E1).
+        destruct (P2 i f1 A1) as (f2 & A2 & B2 & C2 & D2 & E2).
+        exists f2. split; [exact A2|]. split; [congruence|]. split; [congruence|]. split; [congruence|]. intros k. rewrite E2. apply E1.
   Qed.
 
   (* ---- gd_move with data ---- *)
@@ -166,18 +210,27 @@ Section P.
   Qed.
 
   (* ---- gd_rename with GD_REN_DATA | GD_REN_UPDB ---- *)
-  Theorem rename_preserves i j d f :
-    NoDup (map fid (fields d)) -> ~ In j (map fid (fields d)) -> find_field d i = Some f ->
-    exists f', find_field (rename_field i j d) j = Some f' /\ forall k, view (rename_field i j d) f' k = view d f k.
+  Lemma rename_find i j fs f :
+    NoDup (map fid fs) -> ~ In j (map fid fs) -> find (fun f0 => fid f0 =? i) fs = Some f ->
+    find (fun f0 => fid f0 =? j)
+      (map (fun f0 => if fid f0 =? i then mkField j (ffrag f0) (fty f0) (fspf f0) (fvals f0) else f0) fs)
+    = Some (mkField j (ffrag f) (fty f) (fspf f) (fvals f)).
   Proof.
-    intros ND Hj Hf. unfold find_field, rename_field in *. cbn [fields].
-    exists (mkField j (ffrag f) (fty f) (fspf f) (fvals f)). split; [|reflexivity].
-    revert ND Hj Hf. induction (fields d) as [|f0 r IH]; intros ND Hj Hf; [discriminate|].
+    induction fs as [|f0 r IH]; intros ND Hj Hf; [discriminate|].
     cbn [map find] in *. inversion ND as [|? ? Hn ND']; subst.
     destruct (Nat.eqb_spec (fid f0) i) as [Q|Q].
     - inversion Hf; subst f0. cbn [fid]. now rewrite Nat.eqb_refl.
     - destruct (Nat.eqb_spec (fid f0) j) as [Q2|Q2]; [exfalso; apply Hj; left; auto|].
-      apply IH; auto.
+      apply IH; auto; try (intros X; apply Hj; right; exact X).
+  Qed.
+
+  Theorem rename_preserves i j d f :
+    NoDup (map fid (fields d)) -> ~ In j (map fid (fields d)) -> find_field d i = Some f ->
+    exists f', find_field (rename_field i j d) j = Some f' /\ forall k, view (rename_field i j d) f' k = view d f k.
+  Proof.
+    intros ND Hj Hf. exists (mkField j (ffrag f) (fty f) (fspf f) (fvals f)). split.
+    - unfold find_field, rename_field. cbn [fields]. now apply rename_find.
+    - intros k. reflexivity.
   Qed.
 
   (* a field that refers to the renamed one still reads the same data *)
@@ -191,14 +244,16 @@ Section P.
     assert (E : find (fun p0 => fst p0 =? n) (derived (rename_field i j d))
                 = Some (fst p, if snd p =? i then j else snd p)).
     { unfold rename_field. cbn [derived]. revert Hp Hjd. induction (derived d) as [|q r IH]; intros Hp Hjd; [discriminate|].
-      cbn [map find fst] in *. destruct (Nat.eqb_spec (fst q) n) as [Q|Q].
-      - inversion Hp; subst q. destruct (Nat.eqb_spec (fst p) i); [lia|]. rewrite Q, Nat.eqb_refl. rewrite Q. reflexivity.
-      - destruct (Nat.eqb_spec (fst q) i) as [Q2|Q2].
+      cbn [map find] in *. cbn [fst].
+      destruct (Nat.eqb_spec (fst q) n) as [Q|Q].
+      - inversion Hp; subst q. rewrite Q.
+        destruct (Nat.eqb_spec n i) as [Q1|Q1]; [contradiction|]. rewrite Nat.eqb_refl. reflexivity.
+      - assert (Hjr : ~ In j (map fst r)) by (intros X; apply Hjd; right; exact X).
+        destruct (Nat.eqb_spec (fst q) i) as [Q2|Q2].
         + destruct (Nat.eqb_spec j n) as [Q3|Q3]; [|apply IH; auto].
-          (* the new name j is not the name of a derived field... but n could be j only if j names a derived field *)
           exfalso. subst j. apply find_some in Hp as [Hp1 Hp2]. apply Nat.eqb_eq in Hp2.
-          apply Hjd. right. apply in_map_iff. exists p. auto.
-        + rewrite (proj2 (Nat.eqb_neq _ _) Q). apply IH; auto. }
+          apply Hjr. apply in_map_iff. exists p. auto.
+        + destruct (Nat.eqb_spec (fst q) n); [contradiction|]. apply IH; auto. }
     rewrite E. cbn [snd].
     destruct (Nat.eqb_spec (snd p) i) as [Q|Q].
     - rewrite Q in Hf. destruct (rename_preserves i j d f ND Hj Hf) as (f' & F1 & F2). rewrite F1. now rewrite F2.
@@ -207,14 +262,14 @@ Section P.
       assert (E2 : find (fun f0 => fid f0 =? snd p)
                      (map (fun f0 => if fid f0 =? i then mkField j (ffrag f0) (fty f0) (fspf f0) (fvals f0) else f0) (fields d))
                    = Some f).
-      { unfold find_field in Hf. revert Hf Hj. induction (fields d) as [|f0 r IH]; intros Hf Hj; [discriminate|].
+      { clear ND. unfold find_field in Hf. revert Hf Hj. induction (fields d) as [|f0 r IH]; intros Hf Hj; [discriminate|].
         cbn [map find] in *. destruct (Nat.eqb_spec (fid f0) i) as [Q2|Q2].
         - cbn [fid]. destruct (Nat.eqb_spec (fid f0) (snd p)) as [Q3|Q3]; [lia|].
           destruct (Nat.eqb_spec j (snd p)) as [Q4|Q4].
           + exfalso. apply find_some in Hf as [Hf1 Hf2]. apply Nat.eqb_eq in Hf2. apply Hj. right.
             apply in_map_iff. exists f. rewrite Q4. auto.
-          + apply IH; auto. intros X. apply Hj. right. exact X.
-        - destruct (fid f0 =? snd p); [exact Hf|]. apply IH; auto. intros X. apply Hj. right. exact X. }
+          + apply IH; auto; try (intros X; apply Hj; right; exact X).
+        - destruct (fid f0 =? snd p) eqn:Q3; [exact Hf|]. apply IH; auto; try (intros X; apply Hj; right; exact X). }
       rewrite E2. reflexivity.
   Qed.
 End P.
